@@ -387,7 +387,7 @@ class Run:
             raise SimCrash()
         else:
             err = getattr(errno, a["errno"])
-            if kind == "OPENR":
+            if kind in ("OPENR", "STAT"):
                 a["done"] = False
                 a["at"] += 1  # read opens cannot run out of space: fail the next operation
                 return
